@@ -141,6 +141,14 @@ Theorem C09_leak_comprehension_refuted : leaks [] leak_comp_body.
 Proof. exact leak_comp_local. Qed.
 Print Assumptions C09_leak_comprehension_refuted.
 
+(* ... and for EVERY number of passes n: after n passes n blocks (3n cells) are live in the firmware
+   while Python's live data is 3 elements from the first pass on *)
+Theorem C09_leak_comprehension_every_pass_refuted : forall n,
+  exists st pst, run_fw [] leak_comp_body n = Safe st /\ run_py [] leak_comp_body n = POk pst /\
+                 f_live_cells st = 3 * n /\ f_live_blocks st = n /\ (n >= 1 -> p_live pst = 3).
+Proof. exact leak_comp_local_all. Qed.
+Print Assumptions C09_leak_comprehension_every_pass_refuted.
+
 (* while True: t = [1,2,3] *)
 Theorem C09_leak_local_literal_refuted : leaks [] leak_lit_body.
 Proof. exact leak_lit_local. Qed.
